@@ -222,6 +222,10 @@ def ref_accepts(case: VCase):
             if not isinstance(header, dict):
                 return False, None, None, "header-not-object"
             unenc = case.kind == "c7797" and header.get("b64") is False
+            if case.kind == "compact" and header.get("b64") is False:
+                # the RFC 7515 entry points do not implement the unencoded-payload option: what was signed is the
+                # payload segment itself, handing back its base64url decoding would return octets nobody signed
+                return False, None, None, "b64-false-in-plain-entry"
             if unenc:
                 payload = case.detached if case.detached else p
                 signing_input = h + b"." + payload
@@ -256,6 +260,8 @@ def ref_accepts(case: VCase):
             merged = dict(hdr or {})
             merged.update(prot or {})
             unenc = case.kind == "j7797" and flat and bool(prot) and prot.get("b64") is False
+            if case.kind in ("flat", "general") and merged.get("b64") is False:
+                return False, None, None, "b64-false-in-plain-entry"
             unenc_any = unenc_any or unenc
             pseg = pseg_text.encode("utf-8")
             signing_input = (sg["protected"].encode("ascii") if "protected" in sg else b"") + b"." + pseg
